@@ -7,6 +7,7 @@ package csr
 //vsym:entry H14_two_requests
 //vsym:model encoding/json.Unmarshal m14JSONUnmarshal
 //vsym:model net.ParseIP m14ParseIP
+//vsym:model (net.IP).String m14IPString
 //vsym:model crypto/rand.Read m14RandRead
 //vsym:replay same-harness
 //vsym:expect-cover C14.fc.ok C14.fc.too-few C14.fc.too-many C14.fc.bad-policy C14.ok-json C14.ok-legacy C14.err-message C14.err-logname C14.err-ip C14.err-version C14.default-version C14.json-null C14.wrong-type-falls-back C14.sequence C14.two-requests
@@ -14,7 +15,7 @@ package csr
 //vsym:bound H14_newreqparam: SSH_ORIGINAL_COMMAND either JSON (decoder outcome: arbitrary attributes with 0..3- or 7-byte symbolic version, 0..1-byte user/host; or null) or legacy text built from 0..2 tokens (req, SSHClientVersion, HardKey, a 1-byte symbolic key) with 0- or 3-byte symbolic values; LOGNAME 0..2 symbolic bytes; SSH_CONNECTION 0..2 fields of 1 symbolic byte; argv from {3 valid tokens, split tokens, too few, bad policy}; the message shapes and the environment shapes are swept one factor at a time (NewReqParam reads them independently)
 //vsym:bound H14_two_requests: two JSON requests in one process, each stating or omitting the client version, user (1 symbolic byte) and host (1 symbolic byte): 64 combinations; the second is judged as in a fresh process
 //vsym:bound H14_transid_sequence: 14 (thorough 40) accepted requests in one process; every id must be the hex of 5 consecutive crypto/rand bytes no earlier id consumed (randomness may be drawn in larger portions)
-//vsym:assume encoding/json is modelled by its contract (see C15); net.ParseIP is an uninterpreted predicate of its argument; crypto/rand.Read yields arbitrary bytes; the regexp ^\d+\.\d+$ is decided by a byte-class encoding
+//vsym:assume encoding/json is modelled by its contract (see C15); net.ParseIP is an uninterpreted predicate of its argument, (net.IP).String yields the parsed text when that was canonical (a symbolic flag) and another text otherwise; crypto/rand.Read yields arbitrary bytes; the regexp ^\d+\.\d+$ is decided by a byte-class encoding
 
 import (
 	crand "crypto/rand"
@@ -101,6 +102,17 @@ func m14ParseIP(s string) net.IP {
 		return net.IP{1, 2, 3, 4}
 	}
 	return nil
+}
+
+// the canonical text of a parsed address: the text that was parsed when that was canonical,
+// another text otherwise (IPv4-mapped, upper-case or uncompressed spellings are valid and not canonical)
+var m14IPCanonical bool
+
+func m14IPString(ip net.IP) string {
+	if m14IPCanonical {
+		return m14IPArg
+	}
+	return "canonical:" + m14IPArg
 }
 
 func m14RandRead(b []byte) (int, error) {
@@ -272,12 +284,15 @@ func H14_newreqparam() {
 		conn += f
 	}
 	m14IPValid = vNondetBool("ip-valid")
+	m14IPCanonical = vNondetBool("ip-text-canonical")
 	if nf == 0 {
 		vAssume(!m14IPValid) // the empty string is not an IP address
 	}
 	if vIsNative() {
 		// natively the predicate is the real parser: pick a text with the same verdict
-		if m14IPValid {
+		if m14IPValid && !m14IPCanonical {
+			firstField = "0:0:0:0:0:0:0:1"
+		} else if m14IPValid {
 			firstField = "1.2.3.4"
 		} else {
 			firstField = "x"
